@@ -8,6 +8,7 @@ package c05
 import (
 	"bytes"
 	"encoding/json"
+	"expvar"
 	"fmt"
 	"net/http"
 	"net/http/httptest"
@@ -49,6 +50,7 @@ func (tsDiag) Migrated(string, string)                        {}
 type api struct {
 	ts     *task_store.Service
 	routes map[string]http.HandlerFunc
+	h      *httpd.Handler
 	lastID string // id in the last 200 response (the id the service gave the object, whatever the document said)
 }
 
@@ -62,6 +64,13 @@ func openAPI(env *rt.Env) *api {
 		rt.Fatalf("c05: task store open: %v", err)
 	}
 	a := &api{ts: ts, routes: map[string]http.HandlerFunc{}}
+	// the routes the service registered, behind the real HTTP handler (router, logging and recovery middleware):
+	// what a client of the daemon talks to
+	h := httpd.NewHandler(false, false, false, false, true, new(expvar.Map).Init(), wDiag{env.Diag}, "")
+	if err := h.AddRoutes(env.HTTPD.Routes); err != nil {
+		rt.Fatalf("c05: adding the task store's routes to the HTTP handler: %v", err)
+	}
+	a.h = h
 	for _, r := range env.HTTPD.Routes {
 		if hf, ok := r.HandlerFunc.(func(http.ResponseWriter, *http.Request)); ok {
 			a.routes[r.Method+" "+r.Pattern] = hf
@@ -92,8 +101,14 @@ func (a *api) call(method, pattern, u string, body []byte) (code int, resp []byt
 		}()
 		r := httptest.NewRequest(method, u, bytes.NewReader(body))
 		rec := httptest.NewRecorder()
-		h(rec, r)
+		_ = h
+		r0 := recovered.Load()
+		a.h.ServeHTTP(rec, r)
 		o.code, o.body = rec.Code, rec.Body.Bytes()
+		if recovered.Load() != r0 {
+			// the recovery middleware caught a panic of the handler and answered for it
+			o.pan = fmt.Sprintf("%s (answered %d by the recovery middleware)", *lastRecovered.Load(), rec.Code)
+		}
 	}()
 	select {
 	case o := <-ch:
